@@ -806,6 +806,14 @@ fn gen_cfg(rng: &mut Rng) -> Cfg {
         return Cfg { reliable: false, rto: *rng.pick(&[1u64, 2, 3, 1000]), rm: *rng.pick(&[16u32, 1, 3]), rc: *rng.pick(&[31u32, 32, 33, 34, 40, 64]),
                      gran: *rng.pick(&[1u64, 0, 1_000_000]), limit: *rng.pick(&[1usize, 2, 10]), mech: *rng.pick(&[0u8, 0, 1, 4]), fp: rng.chance(1, 3), defaults: false };
     }
+    if rng.chance(1, 16) {
+        // extreme but legal configurations: RTOs of a minute to an hour (or a nanosecond), Rm / Rc of 0, 1 or very large, no or a
+        // huge clock granularity, limits 0 / 1 / "unlimited"
+        return Cfg { reliable: rng.chance(1, 5), rto: *rng.pick(&[61_000_000_000u64, 90_000_000_000, 240_000_000_000, 3_600_000_000_000, 1]),
+                     rm: *rng.pick(&[0u32, 1, 16, 1000]), rc: *rng.pick(&[0u32, 1, 2, 7]),
+                     gran: *rng.pick(&[0u64, 1_000_000, 10_000_000_000]), limit: *rng.pick(&[0usize, 1, 10, 4_000_000_000]),
+                     mech: *rng.pick(&[0u8, 0, 1, 4]), fp: rng.chance(1, 3), defaults: false };
+    }
     let reliable = rng.chance(1, 4);
     let rto = *rng.pick(&[1_000_000u64, 20_000_000, 500_000_000, 500_000_000, 3_000_000_000, 7_300_001]);
     Cfg {
